@@ -9,6 +9,7 @@ import datetime
 import itertools
 
 from dsim.kernel import K, Deadlock, BudgetExceeded
+from dsim import depth as DP
 
 LENGTH_BIAS = [0, 1, 2, 9, 10, 11, 19, 20, 21, 29, 30, 31, 39, 40, 41]
 
@@ -25,9 +26,15 @@ def undt(d):
 # generation
 # ---------------------------------------------------------------------------
 
-def gen_len(rng, maxlen=45):
+LENGTH_BIAS_DEEP = LENGTH_BIAS + [49, 50, 51, 59, 60, 61, 99, 100, 101, 119,
+                                  120, 121]
+
+
+def gen_len(rng, maxlen=None):
+    if maxlen is None:
+        maxlen = DP.pick(45, 130)
     if rng.random() < 0.7:
-        return rng.choice(LENGTH_BIAS)
+        return rng.choice(DP.pick(LENGTH_BIAS, LENGTH_BIAS_DEEP))
     return rng.randrange(0, maxlen + 1)
 
 
@@ -77,7 +84,9 @@ def gen_family_rule(rng, base, cache=False):
     start[2] = 1 + rng.randrange(0, 5)
     start[3] = rng.choice([0, 0, 0, 12]) if freq != 4 else 0
     spec = dict(freq=freq, dtstart=start, interval=rng.choice([1, 1, 2, 3]),
-                count=rng.choice([0, 1, 2, 3, 5, 8, 10, 11, 12]),
+                count=rng.choice(DP.pick([0, 1, 2, 3, 5, 8, 10, 11, 12],
+                                         [0, 1, 3, 9, 10, 11, 19, 20, 21, 30,
+                                          31, 40])),
                 cache=bool(cache))
     if freq == 4:
         spec["interval"] = rng.choice([6, 12, 24])
@@ -90,7 +99,11 @@ def gen_family_date(rng, base):
     return undt(d)
 
 
-def gen_set(rng, cache, max_rules=4, max_dates=6, member_cache_p=0.3):
+def gen_set(rng, cache, max_rules=None, max_dates=None, member_cache_p=0.3):
+    if max_rules is None:
+        max_rules = DP.pick(4, 6)
+    if max_dates is None:
+        max_dates = DP.pick(6, 12)
     base = [rng.choice([2000, 2021]), rng.randrange(1, 13), 1, 0, 0, 0]
     sc = dict(kind="set", cache=bool(cache), base=base, rrules=[], rdates=[],
               exrules=[], exdates=[])
